@@ -71,19 +71,6 @@ Proof.
     try reflexivity.
   rewrite (duration_pcmp_ns _ _ Ha Hb), p_lt_cmp. apply ltb_negb_leb.
 Qed.
-Lemma dk_eq_spec a b :
-  dk_normalized a -> dk_normalized b ->
-  (match duration_kind_pcmp a b with Some Eq => true | _ => false end) = spec_dk_eqb a b.
-Proof.
-  unfold spec_dk_eqb.
-  destruct a as [x|], b as [y|]; cbn [dk_normalized duration_kind_pcmp spec_dk_leb]; intros Ha Hb;
-    try reflexivity.
-  rewrite (duration_pcmp_ns _ _ Ha Hb).
-  destruct (Z.compare_spec (duration_ns x) (duration_ns y)),
-           (Z.leb_spec (duration_ns x) (duration_ns y)),
-           (Z.leb_spec (duration_ns y) (duration_ns x)); try reflexivity; lia.
-Qed.
-
 Lemma spec_dk_leb_total a b : spec_dk_leb a b = false -> spec_dk_leb b a = true.
 Proof.
   destruct a as [x|], b as [y|]; cbn [spec_dk_leb]; try congruence.
